@@ -215,13 +215,17 @@ def main(argv=None):
                 print("G3-DISAGREE", b["function"], json.dumps(b["args"])[:160], "cpython:", json.dumps(b["cpython"])[:160], "engine:", json.dumps(b["engine"])[:160])
             print(f"CHECK-ERROR property={prop} the symbolic executor and CPython disagree on {g3['disagree']} of {g3['cases']} cross-check inputs (engine fault, no verdict)")
             return 3
+    results = run_all(targets, args.jobs)
     # G7 (thorough tier): the call-site summaries admit what the real code does on the cross-check corpus
     args.g7 = None
     if thorough and not os.environ.get("PYVC_SKIP_G7") and not args.only:
         try:
             from selftest.summaries import conformance
 
-            args.g7 = conformance(args.repo, jobs=args.jobs, show=3)
+            used = {t.split("#")[0] for t in targets}
+            for r_ in results:
+                used |= set(r_.get("contract_calls") or [])
+            args.g7 = conformance(args.repo, jobs=args.jobs, show=3, functions=used)  # the summaries this property's proofs relied on
         except Exception as e:
             args.g7 = {"error": f"{type(e).__name__}: {e}"}
         g7 = args.g7
@@ -232,9 +236,8 @@ def main(argv=None):
                 print("G7-MISS", b["function"], json.dumps(b["args"])[:160], "cpython:", json.dumps(b["cpython"])[:160], "summary:", json.dumps(b["summary"])[:160])
             print(f"CHECK-ERROR property={prop} a call-site summary excludes what the real code does on {g7['miss']} cross-check inputs (contract fault, no verdict)")
             return 3
-    results = run_all(targets, args.jobs)
-    # bounded stand-in (C05 only): the one clause that is not proved, "parser steps proportional to the input size", is MEASURED on
-    # the real code over a finite adversarial family (selftest/cost_standin.py); reported under bounded_standins, never as proved
+    # bounded stand-in (C05 only), supplementing the proved step bound: interpreter line events of the parser are MEASURED on the
+    # real code over a finite adversarial family (selftest/cost_standin.py); reported under bounded_standins, never as proved
     args.standins = []
     if prop == "C05" and not args.only and not os.environ.get("PYVC_SKIP_STANDIN"):
         env = dict(os.environ, PYTHONPATH=os.path.join(args.repo, "src"), SELFTEST_TESTS=os.path.join(args.repo, "tests"),
